@@ -66,7 +66,8 @@ def delete_edit(draw, spec):
 @st.composite
 def cross_edit(draw, spec):
     return dict(op="cross_system", how=draw(st.sampled_from(["append_job", "assign_journey", "new_system",
-                                                              "assign_devices", "assign_server"])),
+                                                              "assign_devices", "assign_server", "assign_live_list",
+                                                              "assign_live_list_jobs", "extend_with_live_list"])),
                 pick=draw(st.integers(0, 1000)))
 
 
@@ -263,6 +264,17 @@ def check(case, ctx):
                     elif how == "assign_devices":
                         up0 = cur["system"][0]
                         objs[up0].devices = [b["b_dev"]]
+                    elif how == "assign_live_list":
+                        # the other system's own list object (a ListLinkedToModelingObj), not a plain list
+                        objs[cur["system"][0]].devices = b["b_up"].devices
+                    elif how == "assign_live_list_jobs":
+                        steps_ = [n_ for n_ in S.spec_reachable(cur) if cur["objs"][n_]["cls"] == "UsageJourneyStep"]
+                        if not steps_:
+                            labels.append("cross_not_applicable")
+                            continue
+                        objs[sorted(steps_)[pick % len(steps_)]].jobs = b["b_step"].jobs
+                    elif how == "extend_with_live_list":
+                        b["b_up"].devices.extend(objs[cur["system"][0]].devices)
                     elif how == "assign_server" and comp["jobs"] and any(
                             cur["objs"][j]["cls"] == "Job" for j in comp["jobs"]):
                         j = [j for j in comp["jobs"] if cur["objs"][j]["cls"] == "Job"][0]
